@@ -322,3 +322,94 @@ def worker_replay(inputs, clause):
 
 
 worker.replay = worker_replay
+
+
+# ------------------------------------------------------------------------------ sort_and_index: returns only after a sort
+# attempt succeeded and the index was written; the unsorted file is removed only after that.  The pipeline units above
+# use this function through exactly this contract (sorted and indexed set, or an exception).
+def sai_setup(eng):
+    eng.monitor = None
+    eng.ghost = {'sorted': False, 'indexed': False, 'removed_before_done': False, 'sort_calls': 0}
+    eng.spec_env['GHOST'] = eng.ghost
+    E = externals.EXTRA
+
+    def sort(e, a, k, n):
+        e.ghost['sort_calls'] += 1
+        e.ghost['sorted'] = False          # a failed attempt leaves no usable output (partial file)
+        fault(e, 'sort')
+        e.ghost['sorted'] = True
+
+    def index(e, a, k, n):
+        fault(e, 'index')
+        e.ghost['indexed'] = bool(e.ghost['sorted'])
+
+    def remove(e, a, k, n):
+        if not (e.ghost['sorted'] and e.ghost['indexed']):
+            e.ghost['removed_before_done'] = True
+        fault(e, 'remove')
+    E['pysam.sort'], E['pysam.index'], E['os.remove'] = sort, index, remove
+    E['os.path.abspath'] = lambda e, a, k, n: '/out'
+    E['os.path.dirname'] = lambda e, a, k, n: '/out'
+    E['uuid.uuid4'] = lambda e, a, k, n: 'uuid'
+
+
+sort_and_index = Contract(
+    PROP, FB + '::sort_and_index', name='sort_and_index',
+    params={'unsorted_path': ('const', '/out/x.unsorted.bam'), 'sorted_path': ('const', '/out/x.bam'), 'remove_unsorted': 'bool',
+            'local_temp_sort': 'bool', 'fast_compression': 'bool', 'prefix': ('const', 'TMP')},
+    setup=sai_setup,
+    ensures={
+        'returns_only_with_a_sorted_and_indexed_output': 'GHOST["sorted"] and GHOST["indexed"]',
+        'unsorted_input_is_removed_only_after_success': 'not GHOST["removed_before_done"]',
+        'no_more_sort_attempts_than_temp_locations': 'GHOST["sort_calls"] <= 3',
+    },
+    raises={'Exception': 'True'},
+    assumptions=['pysam.sort / pysam.index / os.remove may raise at every call; a failed sort leaves no usable output file '
+                 '(a partial or stale file at the output path is not a sorted output)'],
+)
+UNITS.append(sort_and_index)
+
+
+def sai_replay(inputs, clause):
+    """real sort_and_index with pysam.sort failing at every temp location and a stale indexable file at the output path"""
+    import os
+    import shutil
+    import tempfile
+    import pysam
+    from pyvc.contract import import_real
+    from pyvc.loader import REPO
+    fn = import_real(FB, 'sort_and_index')
+    src = os.path.join(REPO, 'data', 'mini_nla_test.bam')
+    if not os.path.exists(src):
+        return {'status': 'no-input', 'note': 'test BAM data/mini_nla_test.bam not present'}
+    base = os.path.join(os.path.dirname(os.path.dirname(os.path.abspath(__file__))), '.scratch')
+    os.makedirs(base, exist_ok=True)
+    d = tempfile.mkdtemp(prefix='c20s_', dir=base)
+    real_sort = pysam.sort
+    calls = []
+    try:
+        unsorted, out = os.path.join(d, 'x.unsorted.bam'), os.path.join(d, 'x.bam')
+        shutil.copy(src, unsorted)
+        shutil.copy(src, out)           # a stale (old) file at the output path
+
+        def boom(*a, **k):
+            calls.append(a)
+            raise RuntimeError('injected sort failure (disk full)')
+        pysam.sort = boom
+        try:
+            fn(unsorted, out, remove_unsorted=True, local_temp_sort=bool(inputs.get('local_temp_sort', True)))
+            returned = True
+        except Exception as e:      # noqa
+            returned = False
+    finally:
+        pysam.sort = real_sort
+        obs = {'outcome': 'return', 'value': {'returned_normally': locals().get('returned'), 'sort_attempts': len(calls),
+                                              'unsorted_still_there': os.path.exists(os.path.join(d, 'x.unsorted.bam'))}}
+        shutil.rmtree(d, ignore_errors=True)
+    if obs['value']['returned_normally']:
+        return {'status': 'confirmed', 'observed': obs,
+                'failed': [{'clause': 'returns_only_with_a_sorted_and_indexed_output', 'why': 'every sort attempt failed, the function returned'}]}
+    return {'status': 'not-reproduced', 'observed': obs}
+
+
+sort_and_index.replay = sai_replay
